@@ -38,6 +38,8 @@ func TestVerifDriver(t *testing.T) {
 		runC16(em, r)
 	case "C14":
 		runC14(em, r)
+	case "C02":
+		runC02(em, r)
 	default:
 		t.Fatalf("unknown property %s", prop)
 	}
